@@ -243,9 +243,14 @@ theorem not_mem_renderEvent (c : Char) (b : Bool) (e : TEvent) (h1 : c ≠ TAB) 
 
 theorem parseNat_one : parseNat? ['1'] = some 1 := by decide
 
-/-- one written line parses to the one (normalised) event. -/
-theorem parseLine_renderEvent (b : Bool) (e : TEvent) (h : EventOk e) :
-    parseLine (renderEvent b e ++ [LF]) = some [normaliseAll e] := by
+/-- the instance reads the `1` that `compatible=True` writes -/
+theorem pyInt_one : pyInt ['1'] = some 1 := by decide +kernel
+
+/-- one written line parses to the one (normalised) event — for every `int`
+    that reads `"1"` as 1 (only needed for `compatible=True`). -/
+theorem parseLineWith_renderEvent (intOf : Str → Option Int) (b : Bool) (e : TEvent) (h : EventOk e)
+    (hone : b = true → intOf ['1'] = some 1) :
+    parseLineWith intOf (renderEvent b e ++ [LF]) = some [normaliseAll e] := by
   obtain ⟨hc, ho⟩ := h
   have hLF : LF ∉ renderEvent b e :=
     not_mem_renderEvent LF b e (by decide) (by decide) (by decide)
@@ -256,7 +261,7 @@ theorem parseLine_renderEvent (b : Bool) (e : TEvent) (h : EventOk e) :
     not_mem_joinWith TAB US e.outcomes (by decide) (fun t ht => (ho t ht).1)
   have sc := splitOn_joinWith_norm US e.cues (fun t ht => (hc t ht).2.2.2)
   have so := splitOn_joinWith_norm US e.outcomes (fun t ht => (ho t ht).2.2.2)
-  unfold parseLine
+  unfold parseLineWith
   rw [stripLF_append_LF _ hLF]
   unfold renderEvent
   cases b with
@@ -271,13 +276,18 @@ theorem parseLine_renderEvent (b : Bool) (e : TEvent) (h : EventOk e) :
     rw [e0, splitOn_append_sep TAB _ _ tc, splitOn_append_sep TAB _ _ tco]
     have s1 : splitOn TAB ['1'] = [['1']] := by decide
     rw [s1]
-    simp only [parseNat_one, sc, so, normaliseAll, replicate_one]
+    simp only [hone rfl, sc, so, normaliseAll, Int.toNat_one, replicate_one]
 
-/-- a line with a third column `f` that reads as the number `k` parses to `k`
-    copies of the event. -/
-theorem parseLine_freq (e : TEvent) (h : EventOk e) (f : Str) (k : Nat)
-    (hf : parseNat? f = some k) (hft : TAB ∉ f) (hfl : LF ∉ f) :
-    parseLine (renderEvent false e ++ TAB :: f ++ [LF]) = some (List.replicate k (normaliseAll e)) := by
+theorem parseLine_renderEvent (b : Bool) (e : TEvent) (h : EventOk e) :
+    parseLine (renderEvent b e ++ [LF]) = some [normaliseAll e] :=
+  parseLineWith_renderEvent pyInt b e h (fun _ => pyInt_one)
+
+/-- a line with a third column `f` that `int` reads as `v` parses to
+    `max v 0` copies of the event (`range(v)` is empty for `v ≤ 0`). -/
+theorem parseLineWith_freq (intOf : Str → Option Int) (e : TEvent) (h : EventOk e) (f : Str) (v : Int)
+    (hf : intOf f = some v) (hft : TAB ∉ f) (hfl : LF ∉ f) :
+    parseLineWith intOf (renderEvent false e ++ TAB :: f ++ [LF])
+      = some (List.replicate v.toNat (normaliseAll e)) := by
   obtain ⟨hc, ho⟩ := h
   have hLF : LF ∉ renderEvent false e ++ TAB :: f := by
     have := not_mem_renderEvent LF false e (by decide) (by decide) (by decide)
@@ -290,7 +300,7 @@ theorem parseLine_freq (e : TEvent) (h : EventOk e) (f : Str) (k : Nat)
     not_mem_joinWith TAB US e.outcomes (by decide) (fun t ht => (ho t ht).1)
   have sc := splitOn_joinWith_norm US e.cues (fun t ht => (hc t ht).2.2.2)
   have so := splitOn_joinWith_norm US e.outcomes (fun t ht => (ho t ht).2.2.2)
-  unfold parseLine
+  unfold parseLineWith
   have e1 : renderEvent false e ++ TAB :: f ++ [LF] = (renderEvent false e ++ TAB :: f) ++ [LF] := by simp
   rw [e1, stripLF_append_LF _ hLF]
   unfold renderEvent
@@ -299,6 +309,30 @@ theorem parseLine_freq (e : TEvent) (h : EventOk e) (f : Str) (k : Nat)
       = joinWith US e.cues ++ TAB :: (joinWith US e.outcomes ++ TAB :: f) := by simp
   rw [e2, splitOn_append_sep TAB _ _ tc, splitOn_append_sep TAB _ _ tco, splitOn_no_sep TAB _ hft]
   simp only [hf, sc, so, normaliseAll]
+
+/-- a third column that `int` rejects: `ValueError` -/
+theorem parseLineWith_freq_error (intOf : Str → Option Int) (e : TEvent) (h : EventOk e) (f : Str)
+    (hf : intOf f = none) (hft : TAB ∉ f) (hfl : LF ∉ f) :
+    parseLineWith intOf (renderEvent false e ++ TAB :: f ++ [LF]) = none := by
+  obtain ⟨hc, ho⟩ := h
+  have hLF : LF ∉ renderEvent false e ++ TAB :: f := by
+    have := not_mem_renderEvent LF false e (by decide) (by decide) (by decide)
+      (fun t ht => (hc t ht).2.1) (fun t ht => (ho t ht).2.1)
+    simp only [mem_append, mem_cons, not_or]
+    exact ⟨this, by decide, hfl⟩
+  have tc : TAB ∉ joinWith US e.cues :=
+    not_mem_joinWith TAB US e.cues (by decide) (fun t ht => (hc t ht).1)
+  have tco : TAB ∉ joinWith US e.outcomes :=
+    not_mem_joinWith TAB US e.outcomes (by decide) (fun t ht => (ho t ht).1)
+  unfold parseLineWith
+  have e1 : renderEvent false e ++ TAB :: f ++ [LF] = (renderEvent false e ++ TAB :: f) ++ [LF] := by simp
+  rw [e1, stripLF_append_LF _ hLF]
+  unfold renderEvent
+  simp only [Bool.false_eq_true, if_false, append_nil]
+  have e2 : joinWith US e.cues ++ TAB :: joinWith US e.outcomes ++ TAB :: f
+      = joinWith US e.cues ++ TAB :: (joinWith US e.outcomes ++ TAB :: f) := by simp
+  rw [e2, splitOn_append_sep TAB _ _ tc, splitOn_append_sep TAB _ _ tco, splitOn_no_sep TAB _ hft]
+  simp only [hf]
 
 theorem collectAll_single {α β γ : Type} (f : α → Option (List β)) (r : γ → α) (g : γ → β) :
     ∀ (xs : List γ), (∀ x ∈ xs, f (r x) = some [g x]) → collectAll f (xs.map r) = some (xs.map g)
@@ -332,16 +366,35 @@ theorem bodyLines_renderFile (b : Bool) (es : List TEvent) (h : ∀ e ∈ es, Ev
   rw [linesKeepEnds_unlines _ (fun l hl' => (hl l hl').1)]
   simp [renderLines]
 
-/-- reading a written file with `start`/`step`: the slice of the events. -/
-theorem parseFile_renderFile (b : Bool) (start step : Nat) (es : List TEvent)
-    (h : ∀ e ∈ es, EventOk e) :
-    parseFile start step (renderFile b es) = some ((stride start step es).map normaliseAll) := by
-  unfold parseFile parseLines
-  rw [bodyLines_renderFile b es h]
+/-- `step ≥ 1`: the reader is the line parser over the slice -/
+theorem parseFileWith_pos (intOf : Str → Option Int) (start step : Nat) (hstep : 1 ≤ step) (content : Str) :
+    parseFileWith intOf start step content
+      = collectAll (parseLineWith intOf) (stride start step (bodyLines content)) := by
+  unfold parseFileWith parseLinesWith
+  rw [if_neg (by omega)]
+
+/-- **`step = 0` raises** (`itertools.islice`: `ValueError`), whatever the file,
+    the start and the `int` are. -/
+theorem parseFileWith_step_zero (intOf : Str → Option Int) (start : Nat) (content : Str) :
+    parseFileWith intOf start 0 content = none := by
+  simp [parseFileWith]
+
+/-- reading a written file with `start`/`step ≥ 1`: the slice of the events. -/
+theorem parseFileWith_renderFile (intOf : Str → Option Int) (b : Bool) (start step : Nat)
+    (hstep : 1 ≤ step) (es : List TEvent) (h : ∀ e ∈ es, EventOk e)
+    (hone : b = true → intOf ['1'] = some 1) :
+    parseFileWith intOf start step (renderFile b es) = some ((stride start step es).map normaliseAll) := by
+  rw [parseFileWith_pos intOf start step hstep, bodyLines_renderFile b es h]
   unfold stride
   rw [everyNth_map]
-  exact collectAll_single parseLine (fun e => renderEvent b e ++ [LF]) normaliseAll _
-    (fun e he => parseLine_renderEvent b e (h e (mem_everyNth step start es e he)))
+  exact collectAll_single (parseLineWith intOf) (fun e => renderEvent b e ++ [LF]) normaliseAll _
+    (fun e he => parseLineWith_renderEvent intOf b e (h e (mem_everyNth step start es e he)) hone)
+
+/-- the instance (`hstep` is discharged by `omega` at literal call sites). -/
+theorem parseFile_renderFile (b : Bool) (start step : Nat) (es : List TEvent)
+    (h : ∀ e ∈ es, EventOk e) (hstep : 1 ≤ step := by omega) :
+    parseFile start step (renderFile b es) = some ((stride start step es).map normaliseAll) :=
+  parseFileWith_renderFile pyInt b start step hstep es h (fun _ => pyInt_one)
 
 
 /-! ## C11: the strided partition -/
@@ -549,9 +602,10 @@ theorem job_outcomes (es : List TEvent) (x : Str) :
 
 /-! ## `cues_outcomes` -/
 
-theorem co_fold (n : Nat) (content : Str) (J : Nat → List TEvent) : ∀ (ks : List Nat) (a : CO),
-    (∀ k ∈ ks, parseFile k n content = some (J k)) →
-    ∃ r, ks.foldl (coStep n content) (some a) = some r ∧
+theorem co_fold (intOf : Str → Option Int) (n : Nat) (content : Str) (J : Nat → List TEvent) :
+    ∀ (ks : List Nat) (a : CO),
+    (∀ k ∈ ks, parseFileWith intOf k n content = some (J k)) →
+    ∃ r, ks.foldl (coStepWith intOf n content) (some a) = some r ∧
       r.n = a.n + (((ks.map (fun k => (J k).length)).sum : Nat) : Int) ∧
       (∀ x, cGet r.cues x = cGet a.cues x
           + (ks.map (fun k => ((J k).map (fun e => e.cues.count x)).sum)).sum) ∧
@@ -563,8 +617,8 @@ theorem co_fold (n : Nat) (content : Str) (J : Nat → List TEvent) : ∀ (ks : 
   | cons k ks ih =>
     intro a h
     have hk := h k (by simp)
-    have hstep : coStep n content (some a) k = some (mergeCO a (jobCuesOutcomes (J k))) := by
-      simp [coStep, hk]
+    have hstep : coStepWith intOf n content (some a) k = some (mergeCO a (jobCuesOutcomes (J k))) := by
+      simp [coStepWith, hk]
     obtain ⟨r, hr, hn, hc, ho⟩ := ih (mergeCO a (jobCuesOutcomes (J k))) (fun k' hk' => h k' (by simp [hk']))
     refine ⟨r, by rw [foldl_cons, hstep, hr], ?_, ?_, ?_⟩
     · rw [hn]; simp only [mergeCO, job_n, map_cons, sum_cons]; push_cast; omega
@@ -572,22 +626,24 @@ theorem co_fold (n : Nat) (content : Str) (J : Nat → List TEvent) : ∀ (ks : 
     · intro x; rw [ho x]; simp only [mergeCO, cGet_cMerge, job_outcomes, map_cons, sum_cons]; omega
 
 /-- **`cues_outcomes` with `n ≥ 1` jobs = the direct count** of all events of
-    the file (with a frequency column: of the repeated events). -/
-theorem cuesOutcomes_exact (n : Nat) (hn : 1 ≤ n) (content : Str) (evs : List TEvent)
-    (h : parseFile 0 1 content = some evs) :
-    ∃ r, cuesOutcomes n content = some r ∧ r.n = (evs.length : Int) ∧
+    the file (with a frequency column: of the repeated events), for every `int`. -/
+theorem cuesOutcomesWith_exact (intOf : Str → Option Int) (n : Nat) (hn : 1 ≤ n) (content : Str)
+    (evs : List TEvent) (h : parseFileWith intOf 0 1 content = some evs) :
+    ∃ r, cuesOutcomesWith intOf n content = some r ∧ r.n = (evs.length : Int) ∧
       (∀ x, cGet r.cues x = (evs.map (fun e => e.cues.count x)).sum) ∧
       (∀ x, cGet r.outcomes x = (evs.map (fun e => e.outcomes.count x)).sum) := by
-  unfold parseFile parseLines at h
-  rw [stride_zero_one] at h
-  obtain ⟨per, hper, rfl⟩ := collectAll_some_each parseLine _ _ h
-  have hJ : ∀ k ∈ List.range n, parseFile k n content = some ((stride k n per).flatten) := by
+  rw [parseFileWith_pos intOf 0 1 (by omega), stride_zero_one] at h
+  obtain ⟨per, hper, rfl⟩ := collectAll_some_each (parseLineWith intOf) _ _ h
+  have hJ : ∀ k ∈ List.range n, parseFileWith intOf k n content = some ((stride k n per).flatten) := by
     intro k _
-    unfold parseFile parseLines
-    exact collectAll_stride parseLine _ per hper k n
-  obtain ⟨r, hr, hnn, hc, ho⟩ := co_fold n content (fun k => (stride k n per).flatten) (List.range n)
+    rw [parseFileWith_pos intOf k n hn]
+    exact collectAll_stride (parseLineWith intOf) _ per hper k n
+  obtain ⟨r, hr, hnn, hc, ho⟩ := co_fold intOf n content (fun k => (stride k n per).flatten) (List.range n)
     ⟨0, [], []⟩ hJ
-  refine ⟨r, hr, ?_, ?_, ?_⟩
+  have hcu : cuesOutcomesWith intOf n content
+      = (List.range n).foldl (coStepWith intOf n content) (some ⟨0, [], []⟩) := by
+    unfold cuesOutcomesWith; rw [if_neg (by omega)]
+  refine ⟨r, by rw [hcu, hr], ?_, ?_, ?_⟩
   · rw [hnn]
     have := strided_sum (fun l : List TEvent => l.length) n hn per
     simp only [length_flatten] at *
@@ -602,6 +658,19 @@ theorem cuesOutcomes_exact (n : Nat) (hn : 1 ≤ n) (content : Str) (evs : List 
     have := strided_sum (fun l : List TEvent => (l.map (fun e => e.outcomes.count x)).sum) n hn per
     simp only [sum_flatten_map, cGet, Nat.zero_add]
     exact this
+
+/-- the instance -/
+theorem cuesOutcomes_exact (n : Nat) (hn : 1 ≤ n) (content : Str) (evs : List TEvent)
+    (h : parseFile 0 1 content = some evs) :
+    ∃ r, cuesOutcomes n content = some r ∧ r.n = (evs.length : Int) ∧
+      (∀ x, cGet r.cues x = (evs.map (fun e => e.cues.count x)).sum) ∧
+      (∀ x, cGet r.outcomes x = (evs.map (fun e => e.outcomes.count x)).sum) :=
+  cuesOutcomesWith_exact pyInt n hn content evs h
+
+/-- **`n_jobs = 0` raises** (`multiprocessing.Pool(0)`: `ValueError`). -/
+theorem cuesOutcomesWith_zero (intOf : Str → Option Int) (content : Str) :
+    cuesOutcomesWith intOf 0 content = none := by
+  simp [cuesOutcomesWith]
 
 
 /-! ## `words_symbols` -/
@@ -710,39 +779,47 @@ theorem collectAll_none_iff {α β : Type} (f : α → Option (List β)) :
         have : ¬ ∃ y ∈ xs, f y = none := by rw [← ih, hr]; simp
         simp [this]
 
-theorem coStep_none (n : Nat) (content : Str) : ∀ ks : List Nat, ks.foldl (coStep n content) none = none
+theorem coStep_none (intOf : Str → Option Int) (n : Nat) (content : Str) :
+    ∀ ks : List Nat, ks.foldl (coStepWith intOf n content) none = none
   | [] => rfl
-  | k :: ks => by simp [foldl_cons, coStep, coStep_none n content ks]
+  | k :: ks => by simp [foldl_cons, coStepWith, coStep_none intOf n content ks]
 
-theorem co_fold_none (n : Nat) (content : Str) (k : Nat) (hk : parseFile k n content = none) :
-    ∀ (ks : List Nat) (acc : Option CO), k ∈ ks → ks.foldl (coStep n content) acc = none
+theorem co_fold_none (intOf : Str → Option Int) (n : Nat) (content : Str) (k : Nat)
+    (hk : parseFileWith intOf k n content = none) :
+    ∀ (ks : List Nat) (acc : Option CO), k ∈ ks → ks.foldl (coStepWith intOf n content) acc = none
   | [], _, h => by simp at h
   | j :: ks, acc, h => by
     rw [foldl_cons]
     by_cases hj : j = k
     · subst hj
-      have : coStep n content acc j = none := by cases acc <;> simp [coStep, hk]
+      have : coStepWith intOf n content acc j = none := by cases acc <;> simp [coStepWith, hk]
       rw [this, coStep_none]
     · have : k ∈ ks := by
         rcases mem_cons.mp h with h | h
         · exact absurd h.symm hj
         · exact h
-      exact co_fold_none n content k hk ks _ this
+      exact co_fold_none intOf n content k hk ks _ this
 
-/-- a line that raises is read by one of the `n` jobs: the count raises too. -/
-theorem cuesOutcomes_error (n : Nat) (hn : 1 ≤ n) (content : Str)
-    (h : parseFile 0 1 content = none) : cuesOutcomes n content = none := by
-  unfold parseFile parseLines at h
-  rw [stride_zero_one, collectAll_none_iff] at h
+/-- a line that raises is read by one of the `n` jobs: the count raises too —
+    for every `int` (a line "raises" when THAT `int` rejects its third column or
+    it has not 2 or 3 columns). -/
+theorem cuesOutcomesWith_error (intOf : Str → Option Int) (n : Nat) (hn : 1 ≤ n) (content : Str)
+    (h : parseFileWith intOf 0 1 content = none) : cuesOutcomesWith intOf n content = none := by
+  rw [parseFileWith_pos intOf 0 1 (by omega), stride_zero_one, collectAll_none_iff] at h
   obtain ⟨line, hmem, hline⟩ := h
   have hp := (stride_perm n hn (bodyLines content)).mem_iff (a := line)
   rw [mem_flatMap] at hp
   obtain ⟨k, hk, hin⟩ := hp.mpr hmem
-  have hnone : parseFile k n content = none := by
-    unfold parseFile parseLines
-    rw [collectAll_none_iff]
+  have hnone : parseFileWith intOf k n content = none := by
+    rw [parseFileWith_pos intOf k n hn, collectAll_none_iff]
     exact ⟨line, hin, hline⟩
-  exact co_fold_none n content k hnone _ _ hk
+  unfold cuesOutcomesWith
+  rw [if_neg (by omega)]
+  exact co_fold_none intOf n content k hnone _ _ hk
+
+theorem cuesOutcomes_error (n : Nat) (hn : 1 ≤ n) (content : Str)
+    (h : parseFile 0 1 content = none) : cuesOutcomes n content = none :=
+  cuesOutcomesWith_error pyInt n hn content h
 
 /-! ## decimal frequency literals -/
 
@@ -802,6 +879,282 @@ theorem decimal_clean (k : Nat) : TAB ∉ decimal k ∧ LF ∉ decimal k := by
       have := digitChar_ne d (Nat.digits_lt_base (by norm_num) hd)
     · exact this.1 he
     · exact this.2 he
+
+/-! ## the `int` instance on decimal numerals -/
+
+theorem digitChar_props (d : Nat) (h : d < 10) :
+    pyIsSpace (digitChar d) = false ∧ digitChar d ≠ '-' ∧ digitChar d ≠ '+' ∧ digitChar d ≠ '_' := by
+  have : ∀ d < 10, pyIsSpace (digitChar d) = false ∧ digitChar d ≠ '-' ∧ digitChar d ≠ '+'
+      ∧ digitChar d ≠ '_' := by decide
+  exact this d h
+
+/-- the characters of `str(k)` are ASCII digits -/
+theorem decimal_digits (k : Nat) : ∀ c ∈ decimal k, ∃ d, d < 10 ∧ c = digitChar d := by
+  unfold decimal
+  by_cases hk : k = 0
+  · subst hk; intro c hc; simp at hc; exact ⟨0, by omega, by rw [hc]; rfl⟩
+  · rw [if_neg hk]
+    intro c hc
+    simp only [mem_map, mem_reverse] at hc
+    obtain ⟨d, hd, rfl⟩ := hc
+    exact ⟨d, Nat.digits_lt_base (by norm_num) hd, rfl⟩
+
+theorem decimal_ne_nil (k : Nat) : decimal k ≠ [] := by
+  unfold decimal
+  by_cases hk : k = 0
+  · simp [hk]
+  · simp [hk, Nat.digits_ne_nil_iff_ne_zero.mpr hk]
+
+theorem dropUS_of_no_us : ∀ (s : Str), '_' ∉ s → dropUS s = some s
+  | [], _ => rfl
+  | c :: r, h => by
+    have hc : c ≠ '_' := fun e => h (by simp [e])
+    have hr : '_' ∉ r := fun m => h (by simp [m])
+    simp [dropUS, hc, dropUS_of_no_us r hr]
+
+theorem strip_of_ends (p : Char → Bool) (s : Str)
+    (h1 : ∀ c t, s = c :: t → p c = false) (h2 : ∀ c t, s.reverse = c :: t → p c = false) :
+    strip p s = s := by
+  unfold strip lstrip rstrip
+  rw [dropWhile_of_head s h1, dropWhile_of_head s.reverse h2, reverse_reverse]
+
+/-- **`int(str(k)) == k`** for the instance, for every `k` whose numeral has at
+    most 4300 digits (`k < 10^4300`; beyond that CPython ≥ 3.11 raises). -/
+theorem pyInt_decimal (k : Nat) (hlen : (decimal k).length ≤ intMaxStrDigits) :
+    pyInt (decimal k) = some (k : Int) := by
+  have hd := decimal_digits k
+  have hne := decimal_ne_nil k
+  have hstrip : strip pyIsSpace (decimal k) = decimal k := by
+    apply strip_of_ends
+    · intro c t e
+      obtain ⟨d, hd10, rfl⟩ := hd c (by rw [e]; simp)
+      exact (digitChar_props d hd10).1
+    · intro c t e
+      have : c ∈ decimal k := by
+        have : c ∈ (decimal k).reverse := by rw [e]; simp
+        simpa using this
+      obtain ⟨d, hd10, rfl⟩ := hd c this
+      exact (digitChar_props d hd10).1
+  have hus : '_' ∉ decimal k := by
+    intro h
+    obtain ⟨d, hd10, e⟩ := hd _ h
+    exact (digitChar_props d hd10).2.2.2 e.symm
+  unfold pyInt
+  simp only [hstrip]
+  cases hs : decimal k with
+  | nil => exact absurd hs hne
+  | cons c t =>
+    obtain ⟨d, hd10, rfl⟩ := hd c (by rw [hs]; simp)
+    obtain ⟨_, hm, hp, hu⟩ := digitChar_props d hd10
+    have hsign : splitSign (digitChar d :: t) = (false, digitChar d :: t) := by
+      unfold splitSign
+      split
+      · rename_i r heq; exact absurd (List.cons.inj heq).1 hm
+      · rename_i r heq; exact absurd (List.cons.inj heq).1 hp
+      · rfl
+    have hbody : natOfBody (digitChar d :: t) = some k := by
+      unfold natOfBody
+      split
+      · rename_i r heq; exact absurd (List.cons.inj heq).1 hu
+      · rw [← hs, dropUS_of_no_us _ hus]
+        simp only []
+        rw [if_neg (by omega), parseNat_decimal k]
+    rw [hsign]
+    simp [hbody]
+
+/-! ## counters: distinct keys, positive counts -/
+
+/-- a `collections.Counter` as these functions build it: every key once, every
+    count positive -/
+def CounterOk (c : Counter) : Prop := (c.map Prod.fst).Nodup ∧ ∀ kn ∈ c, 0 < kn.2
+
+theorem CounterOk.nil : CounterOk [] := ⟨by simp, by simp⟩
+
+theorem cAdd_pos (a : Str) (n : Nat) (hn : 0 < n) : ∀ (c : Counter), (∀ kn ∈ c, 0 < kn.2) →
+    ∀ kn ∈ cAdd c a n, 0 < kn.2
+  | [], _, kn, hkn => by simp [cAdd] at hkn; subst hkn; exact hn
+  | (k, m) :: c, hpos, kn, hkn => by
+    by_cases hk : k = a
+    · simp only [cAdd, if_pos hk, mem_cons] at hkn
+      rcases hkn with rfl | hkn
+      · have := hpos (k, m) (by simp); simp at this ⊢; omega
+      · exact hpos kn (by simp [hkn])
+    · simp only [cAdd, if_neg hk, mem_cons] at hkn
+      rcases hkn with rfl | hkn
+      · exact hpos (k, m) (by simp)
+      · exact cAdd_pos a n hn c (fun x hx => hpos x (by simp [hx])) kn hkn
+
+theorem cAdd_ok (c : Counter) (a : Str) (n : Nat) (hn : 0 < n) (h : CounterOk c) : CounterOk (cAdd c a n) :=
+  ⟨(cAdd_keys_nodup c a n h.1).1, cAdd_pos a n hn c h.2⟩
+
+theorem cCountList_ok (xs : List Str) : ∀ (c : Counter), CounterOk c → CounterOk (cCountList c xs) := by
+  induction xs with
+  | nil => intro c h; exact h
+  | cons x xs ih =>
+    intro c h
+    have : cCountList c (x :: xs) = cCountList (cAdd c x 1) xs := rfl
+    rw [this]
+    exact ih _ (cAdd_ok c x 1 (by omega) h)
+
+theorem cMerge_ok (b : Counter) : ∀ (a : Counter), CounterOk a → (∀ kn ∈ b, 0 < kn.2) → CounterOk (cMerge a b) := by
+  induction b with
+  | nil => intro a h _; exact h
+  | cons kn b ih =>
+    intro a h hb
+    obtain ⟨k, n⟩ := kn
+    have : cMerge a ((k, n) :: b) = cMerge (cAdd a k n) b := rfl
+    rw [this]
+    exact ih _ (cAdd_ok a k n (hb (k, n) (by simp)) h) (fun x hx => hb x (by simp [hx]))
+
+/-- with distinct keys and positive counts, the keys are exactly the names
+    with a non-zero count (`cGet`), and `cGet` is the count stored under the key -/
+theorem CounterOk.mem_iff {c : Counter} (h : CounterOk c) (a : Str) :
+    a ∈ c.map Prod.fst ↔ 0 < cGet c a := by
+  induction c with
+  | nil => simp [cGet]
+  | cons kn c ih =>
+    obtain ⟨k, n⟩ := kn
+    have hc : CounterOk c := ⟨(List.nodup_cons.mp h.1).2, fun x hx => h.2 x (by simp [hx])⟩
+    have hn : 0 < n := h.2 (k, n) (by simp)
+    simp only [map_cons, mem_cons, cGet]
+    by_cases hk : k = a
+    · subst hk; simp; omega
+    · rw [if_neg hk, Nat.zero_add, ← ih hc]
+      constructor
+      · rintro (e | e)
+        · exact absurd e.symm hk
+        · exact e
+      · exact Or.inr
+
+theorem CounterOk.get_eq {c : Counter} (h : CounterOk c) (a : Str) (n : Nat) (hm : (a, n) ∈ c) :
+    cGet c a = n := by
+  induction c with
+  | nil => simp at hm
+  | cons kn c ih =>
+    obtain ⟨k, m⟩ := kn
+    have hc : CounterOk c := ⟨(List.nodup_cons.mp h.1).2, fun x hx => h.2 x (by simp [hx])⟩
+    have hnd := (List.nodup_cons.mp h.1).1
+    simp only [mem_cons, Prod.mk.injEq] at hm
+    simp only [cGet]
+    rcases hm with ⟨rfl, rfl⟩ | hm
+    · have : cGet c a = 0 := by
+        by_contra hne
+        have := (hc.mem_iff a).mpr (by omega)
+        exact hnd this
+      simp [this]
+    · have hka : k ≠ a := by
+        intro e; subst e
+        exact hnd (by simp only [mem_map]; exact ⟨(k, n), hm, rfl⟩)
+      rw [if_neg hka, Nat.zero_add]
+      exact ih hc hm
+
+theorem job_ok (es : List TEvent) :
+    CounterOk (jobCuesOutcomes es).cues ∧ CounterOk (jobCuesOutcomes es).outcomes := by
+  have key : ∀ (es : List TEvent) (st : Counter × Counter), CounterOk st.1 → CounterOk st.2 →
+      CounterOk (es.foldl (fun (st : Counter × Counter) e =>
+        (cCountList st.1 e.cues, cCountList st.2 e.outcomes)) st).1 ∧
+      CounterOk (es.foldl (fun (st : Counter × Counter) e =>
+        (cCountList st.1 e.cues, cCountList st.2 e.outcomes)) st).2 := by
+    intro es
+    induction es with
+    | nil => intro st h1 h2; exact ⟨h1, h2⟩
+    | cons e es ih =>
+      intro st h1 h2
+      simp only [foldl_cons]
+      exact ih _ (cCountList_ok _ _ h1) (cCountList_ok _ _ h2)
+  exact key es ([], []) CounterOk.nil CounterOk.nil
+
+theorem mergeCO_ok (a r : CO) (ha : CounterOk a.cues ∧ CounterOk a.outcomes)
+    (hr : CounterOk r.cues ∧ CounterOk r.outcomes) :
+    CounterOk (mergeCO a r).cues ∧ CounterOk (mergeCO a r).outcomes :=
+  ⟨cMerge_ok _ _ ha.1 hr.1.2, cMerge_ok _ _ ha.2 hr.2.2⟩
+
+theorem co_fold_ok (intOf : Str → Option Int) (n : Nat) (content : Str) :
+    ∀ (ks : List Nat) (acc : Option CO) (r : CO),
+      (∀ a, acc = some a → CounterOk a.cues ∧ CounterOk a.outcomes) →
+      ks.foldl (coStepWith intOf n content) acc = some r → CounterOk r.cues ∧ CounterOk r.outcomes := by
+  intro ks
+  induction ks with
+  | nil => intro acc r h hr; exact h r hr
+  | cons k ks ih =>
+    intro acc r h hr
+    rw [foldl_cons] at hr
+    refine ih _ r ?_ hr
+    intro a ha
+    cases acc with
+    | none => simp [coStepWith] at ha
+    | some a0 =>
+      cases hp : parseFileWith intOf k n content with
+      | none => simp [coStepWith, hp] at ha
+      | some es =>
+        simp only [coStepWith, hp, Option.some.injEq] at ha
+        subst ha
+        exact mergeCO_ok a0 _ (h a0 rfl) (job_ok es)
+
+/-- **the counters `cues_outcomes` returns have distinct keys and no zero (or
+    negative) counts**, for every `int`, every number of jobs, every file. -/
+theorem cuesOutcomesWith_ok (intOf : Str → Option Int) (n : Nat) (content : Str) (r : CO)
+    (h : cuesOutcomesWith intOf n content = some r) : CounterOk r.cues ∧ CounterOk r.outcomes := by
+  unfold cuesOutcomesWith at h
+  by_cases hn : n = 0
+  · simp [hn] at h
+  · rw [if_neg hn] at h
+    refine co_fold_ok intOf n content _ _ r ?_ h
+    intro a ha
+    simp only [Option.some.injEq] at ha
+    subst ha
+    exact ⟨CounterOk.nil, CounterOk.nil⟩
+
+theorem countWords_ok (ws : List Str) : CounterOk (countWords ws).words ∧ CounterOk (countWords ws).symbols := by
+  have key : ∀ (ws : List Str) (st : WS), CounterOk st.words → CounterOk st.symbols →
+      CounterOk (ws.foldl (fun (st : WS) w =>
+        (⟨cAdd st.words w 1, cMerge st.symbols (cCountList [] (w.map (fun c => [c])))⟩ : WS)) st).words ∧
+      CounterOk (ws.foldl (fun (st : WS) w =>
+        (⟨cAdd st.words w 1, cMerge st.symbols (cCountList [] (w.map (fun c => [c])))⟩ : WS)) st).symbols := by
+    intro ws
+    induction ws with
+    | nil => intro st h1 h2; exact ⟨h1, h2⟩
+    | cons w ws ih =>
+      intro st h1 h2
+      simp only [foldl_cons]
+      exact ih _ (cAdd_ok _ _ 1 (by omega) h1)
+        (cMerge_ok _ _ h2 (cCountList_ok _ _ CounterOk.nil).2)
+  exact key ws ⟨[], []⟩ CounterOk.nil CounterOk.nil
+
+theorem ws_fold_ok (lower : Option (List (Str × Str))) (n : Nat) (lines : List (List Str)) :
+    ∀ (ks : List Nat) (acc : Option WS) (r : WS),
+      (∀ a, acc = some a → CounterOk a.words ∧ CounterOk a.symbols) →
+      ks.foldl (wsStep lower n lines) acc = some r → CounterOk r.words ∧ CounterOk r.symbols := by
+  intro ks
+  induction ks with
+  | nil => intro acc r h hr; exact h r hr
+  | cons k ks ih =>
+    intro acc r h hr
+    rw [foldl_cons] at hr
+    refine ih _ r ?_ hr
+    intro a ha
+    cases acc with
+    | none => simp [wsStep] at ha
+    | some a0 =>
+      cases hp : jobWordsSymbols lower (stride k n lines) with
+      | none => simp [wsStep, hp] at ha
+      | some w =>
+        simp only [wsStep, hp, Option.some.injEq] at ha
+        subst ha
+        have hw : CounterOk w.words ∧ CounterOk w.symbols := by
+          simp only [jobWordsSymbols] at hp
+          split at hp
+          · simp only [Option.some.injEq] at hp; subst hp; exact countWords_ok _
+          · cases hp
+        exact ⟨cMerge_ok _ _ (h a0 rfl).1 hw.1.2, cMerge_ok _ _ (h a0 rfl).2 hw.2.2⟩
+
+theorem wordsSymbols_ok (lower : Option (List (Str × Str))) (n : Nat) (lines : List (List Str)) (r : WS)
+    (h : wordsSymbols lower n lines = some r) : CounterOk r.words ∧ CounterOk r.symbols := by
+  refine ws_fold_ok lower n lines _ _ r ?_ h
+  intro a ha
+  simp only [Option.some.injEq] at ha
+  subst ha
+  exact ⟨CounterOk.nil, CounterOk.nil⟩
 
 /-! ## the writer with `delimiter=` / `columns=` (C07): the header never reaches the reader -/
 
